@@ -66,13 +66,23 @@ CHECKS = {
              "uncommit, is an existing commit taken as it is; rename keeps the very commit; undo / redo / reset re-create "
              "nothing; new gives the requested identity and leaves the others; a refresh that changes nothing creates no "
              "commit; stg edit -m changes only the named patch's identity and an edit that changes nothing runs no "
-             "transaction; stg squash yields the requested identity for the squashed patch and keeps all others. End-to-end direct oracle on commits with legacy encodings (ISO-8859-1, windows-1252, valid-UTF-8 "
+             "transaction; stg squash yields the requested identity for the squashed patch and keeps all others. "
+             "Text side (Model/Encoding.v: message_ex, Message::encode_with, commit_with_options, author_strict over "
+             "utf-8 / latin-1 / windows-1252 labels and four i18n.commitEncoding settings): undeclared and utf-8 commits "
+             "keep their bytes exactly; every decodable message outside the class of F40 is shown by git with the same "
+             "text after the re-creation (UTF-8 round trip proved arithmetically); an unknown label refuses; F40 (latin-1 "
+             "label with bytes 0x80-0x9f: encoding_rs decodes windows-1252) is proved to break it and is a known "
+             "finding. Re-creation correspondence: generated commits are re-created by the real stg push under each "
+             "commit encoding and refusal, header, bytes and git's decoding are compared with the extracted model. "
+             "End-to-end direct oracle on commits with legacy encodings (ISO-8859-1, windows-1252, valid-UTF-8 "
              "bytes under a declared single-byte encoding), odd identities, time zones and git notes through every "
              "re-creating operation (fixes F15, F28).",
-        note="Partial: byte-level decoding / re-encoding (encoding header, encoding_rs tables, git's i18n.commitEncoding) "
-             "and gpg signing are outside the model and judged by the end-to-end oracle only; edit's interactive path is "
-             "covered by the scripted extras scenarios. Trusted: Coq kernel; history-level correspondence harness.",
-        technique="Coq proof (identity carried by every re-creating operation) + history-level differential testing + "
+        note="Partial: encodings other than utf-8 / latin-1 / windows-1252 (other encoding_rs tables, multi-byte "
+             "encodings), glibc iconv as git's decoder and gpg signing are outside the model and judged by the end-to-end "
+             "oracle only; edit's interactive path is "
+             "covered by the scripted extras scenarios. Trusted: Coq kernel; history-level correspondence harness; extraction of Model/Encoding.v "
+             "(ExtrOcamlBasic only).",
+        technique="Coq proof (identity carried by every re-creating operation; shown text kept by the re-encoding) + history-level and re-creation differential testing + "
                   "end-to-end decoded author/date/message/notes oracle"),
     "C09": dict(category="proof", design_ref="DESIGN.md section 4/C09", note=HIST_NOTE, technique=HIST_TECH,
         text="Theorems: a conflict halt keeps every earlier push; halted transactions never exit 0; with conflicts "
@@ -163,7 +173,7 @@ CHECKS = {
              "of Model/Export.v (ExtrOcamlBasic) and ocaml/edriver.ml.",
         technique="Coq proof (round-trip theorem + refuted witnesses) + extracted-model function-level differential "
                   "testing + byte-for-byte comparison of real exported files and imported patches with the model + "
-                  "export/import round-trip oracle over series, file, gzip, tar.gz and mbox forms"),
+                  "export/import round-trip oracle over series, file, gzip, bzip2, tar, tar.gz, tar.bz2 and mbox forms"),
     "C19": dict(category="proof", design_ref="DESIGN.md section 4/C19", note=PROTO_NOTE, technique=PROTO_TECH,
         text="Theorems: one SIGINT before publication leaves the refs unchanged; inside the critical section the "
              "publication completes (refs, index, work tree of the completed command) with status 130; a roll-back "
